@@ -20,7 +20,7 @@ RULE = ("seeded random DSL designs: 1-3 modules (submodules of the top module or
         "clock domains (posedge / negedge, synchronous / asynchronous / no reset), every sync signal in one domain; nesting depth<=3 of "
         "If/Elif/Else (multi-bit and signed conditions, conditions may read comb signals), Switch/Case with RAW patterns (ints incl. negative "
         "and unrepresentable, Enum members, several patterns, '-' strings with spaces and tabs, empty Case, Default in the middle; test up to 5 bits), "
-        "FSM with 0-4 states in any clock domain (init=, ongoing() before definition, ongoing() read inside and after the FSM, m.next under If and "
+        "0-3 FSMs per design (several in one module or spread over the modules) with 0-4 states in any clock domain (init=, ongoing() before definition, ongoing() read inside and after the FSM, m.next under If and "
         "Switch, encoding by first reference; register width, signedness and init compared), assignments to nested linear targets "
         "(Slice/Part/Cat/array/u/s; signals up to 9 bits) ; 12-24 events (input changes, clock edges one signal at a time so both "
         "edges are observed, two clocks at once, reset pulses); all signals read after every event; malformed designs (bad pattern "
@@ -258,10 +258,11 @@ class PGen:
         self.fsms.append(f)
         return ["fsm", f]
 
-    def module(self, mod, want_fsm):
+    def module(self, mod, nfsm):
+        """statements, then `nfsm` times: an FSM and more statements (which may read its ongoing() signals)"""
         r = self.rng
         prog = self.stmts(r.randrange(1, 4), mod, n=r.randrange(1, 5))
-        if want_fsm:
+        for _ in range(int(nfsm)):
             prog.append(self.add_fsm(mod))
             prog += self.stmts(r.randrange(1, 3), mod, n=r.randrange(0, 3))
         return prog
@@ -308,11 +309,14 @@ def gen_cases(tier, seed):
         pg = PGen(rng, rng.randrange(1, 4), rng.randrange(0, 3), rng.randrange(0, 3), ndom, nmod)
         if not pg.combs and not pg.syncs:
             continue
-        has_fsm = bool(pg.doms) and rng.random() < 0.45
-        fsm_mod = rng.randrange(nmod) if has_fsm else None
-        mods = [pg.module(k, k == fsm_mod) for k in range(nmod)]
+        nf = rng.choice([1, 1, 1, 2, 2, 3]) if pg.doms and rng.random() < 0.45 else 0
+        has_fsm = nf > 0
+        per_mod = [0] * nmod
+        for _ in range(nf):
+            per_mod[rng.randrange(nmod)] += 1
+        mods = [pg.module(k, per_mod[k]) for k in range(nmod)]
         evs = pg.events(rng.randrange(10, 20))
-        shape = ("fsm" if has_fsm else "rnd") + (f"{nmod}m" if nmod > 1 else "") + (f"{len(pg.doms)}d" if len(pg.doms) > 1 else "")
+        shape = ("fsm" + (f"x{nf}" if nf > 1 else "") if has_fsm else "rnd") + (f"{nmod}m" if nmod > 1 else "") + (f"{len(pg.doms)}d" if len(pg.doms) > 1 else "")
         cases.append(pg.case(mods, evs, k="dsl", shape=shape))
         if i % 3 == 0:
             cases.append(pg.case(mods, evs, k="stmts", shape="fsm" if has_fsm else "rnd"))
@@ -647,3 +651,30 @@ def explain(c):
             "IndexError, 1 SyntaxError, 2 NameError, 3 KeyError); [2] when the model's settle loop does not converge. k=stmts: the same "
             "trace from amaranth's own lowered statements. k=combspec: the comb-driven signals per the per-bit last-active-assignment-"
             "wins-over-init specification. k=alias: observed ++ [-99] ++ observed against spec ++ [-99] ++ simulator-RMW model")
+
+
+def extra(tier, seed, findings):
+    """evaluate the model's decidable no-combinational-loop check (coq/Model/DslAcyc.v: acyclic_auto, the hypothesis of
+    C02_settle_terminates_auto) on the lowered comb statements of the generated designs and record how many satisfy it"""
+    import collections
+    import common as C
+    cases = [c for c in gen_cases(tier, seed) if c["k"] == "dsl" and c.get("shape") != "ex"]
+    if tier == "thorough":
+        cases = cases[:2500]
+    terms = []
+    for c in cases:
+        base = coq_sigs(c["shapes"][:c["nbase"]], c["inits"], c["rl"])
+        mods = "[" + "; ".join(coq_items(p, c["shapes"]) for p in c["mods"]) + "]"
+        terms.append(f"k_acyclic {base} {coq_doms(c)} {mods}")
+    vals, errors = C.run_model(ID + "_acyc", RUN_MODULE, terms, [[-7]] * len(terms), shard_size=4 * SHARD)
+    viol = []
+    if errors or len(vals) != len(terms):
+        viol.append({"property": ID, "kind": "extra", "what": "the acyclicity check could not be evaluated on every design",
+                     "errors": [e[:500] for e in errors[:3]], "evaluated": len(vals), "designs": len(terms)})
+    ok = [v for v in vals.values() if v[:1] == [1]]
+    hist = collections.Counter(v[1] for v in ok)
+    cov = {"acyclic_checked": len(terms), "acyclic_ok": len(ok),
+           "acyclic_not_ok": sum(1 for v in vals.values() if v[:1] == [0]),
+           "acyclic_max_rank": max(hist) if hist else 0,
+           "acyclic_rank_hist": {str(k): hist[k] for k in sorted(hist)}}
+    return viol, cov
